@@ -30,9 +30,27 @@ import (
 
 const (
 	verifDir = "/verif"
-	repoDir  = "/repo"
 	goBin    = "go1.26.8"
 )
+
+// repoDir is /repo. VERIF_DEV_REPO (development only: sensitivity experiments on several
+// patched scratch worktrees at once, never used by a registered command) points the check
+// at another copy of the library; its replay and evidence files then go to outDir
+// (VERIF_DEV_OUT, default /tmp/verif-devout) instead of /verif.
+var (
+	repoDir = "/repo"
+	outDir  = verifDir
+)
+
+func init() {
+	if v := os.Getenv("VERIF_DEV_REPO"); v != "" {
+		repoDir = v
+		outDir = "/tmp/verif-devout"
+		if o := os.Getenv("VERIF_DEV_OUT"); o != "" {
+			outDir = o
+		}
+	}
+}
 
 type foundViolation struct {
 	Property string          `json:"property"`
@@ -718,8 +736,8 @@ func checkProperty(prop, tier string) int {
 			known = append(known, fmt.Sprintf("KNOWN-FINDING: property=%s %s", prop, kf.text))
 			continue
 		}
-		os.MkdirAll(filepath.Join(verifDir, "replays"), 0o755)
-		path := filepath.Join(verifDir, "replays", fmt.Sprintf("%s-seed%d.json", prop, m.Seed))
+		os.MkdirAll(filepath.Join(outDir, "replays"), 0o755)
+		path := filepath.Join(outDir, "replays", fmt.Sprintf("%s-seed%d.json", prop, m.Seed))
 		b, _ := json.MarshalIndent(m, "", " ")
 		os.WriteFile(path, b, 0o644)
 		reported = append(reported, fmt.Sprintf("VIOLATION property=%s replay=%s", prop, path))
@@ -820,9 +838,9 @@ func writeEvidence(prop, tier string, seed uint64, agg *summary, info map[string
 		"wall_s":      wall,
 		"violations":  nViol,
 	}
-	os.MkdirAll(filepath.Join(verifDir, "evidence"), 0o755)
+	os.MkdirAll(filepath.Join(outDir, "evidence"), 0o755)
 	b, _ := json.MarshalIndent(ev, "", " ")
-	os.WriteFile(filepath.Join(verifDir, "evidence", prop+".json"), b, 0o644)
+	os.WriteFile(filepath.Join(outDir, "evidence", prop+".json"), b, 0o644)
 }
 
 func replayCmd(prop, path string) int {
@@ -1006,9 +1024,9 @@ func seedCmd(prop string, seed uint64) int {
 		rf.Tail = res.Tail
 	}
 	m := minimise(e, prop, rf, 90*time.Second)
-	path := filepath.Join(verifDir, "replays", fmt.Sprintf("%s-seed%d.json", prop, seed))
+	path := filepath.Join(outDir, "replays", fmt.Sprintf("%s-seed%d.json", prop, seed))
 	b, _ := json.MarshalIndent(m, "", " ")
-	os.MkdirAll(filepath.Join(verifDir, "replays"), 0o755)
+	os.MkdirAll(filepath.Join(outDir, "replays"), 0o755)
 	os.WriteFile(path, b, 0o644)
 	fmt.Printf("seed %d: class=%s\n%s\nscenario: %s\nreplay: %s\n", seed, m.Class, head(m.Detail, 3000), string(m.Scenario), path)
 	for _, l := range m.Tail {
